@@ -1,21 +1,27 @@
 #!/bin/bash
-# Regression over every kept seeded change: apply it to /repo, run the quick tier of the checks recorded in its
+# Regression over every kept seeded change: apply it to the repository, run the quick tier of the checks recorded in its
 # meta.json, expect exit 1 with a VIOLATION line from at least one of them, revert. Prints one line per seed.
-cd /verif
+# Runs in place on /repo, or -- under `vp run --with-repo` -- on the repository snapshot in $VP_RUN_REPO with the
+# checks pointed at it (VF_REPO_SRC), so that work in /repo and /verif can go on meanwhile.
+HERE="$(cd "$(dirname "$0")/.." && pwd)"
+cd "$HERE"
+REPO=${VP_RUN_REPO:-/repo}
+if [ "$REPO" != "/repo" ]; then export VF_REPO_SRC="$REPO/src"; fi
+case "$REPO/src" in */repo/src) ;; *) echo "repository path must end in /repo"; exit 2;; esac
 fail=0
 for d in seeded/*/; do
   id=$(basename $d)
   checks=$(python3 -c "import json;print(' '.join(json.load(open('$d/meta.json'))['detected_by']))")
-  git -C /repo apply /verif/$d/patch.diff || { echo "$id: PATCH DOES NOT APPLY"; fail=1; continue; }
+  git -C $REPO apply $HERE/$d/patch.diff || { echo "$id: PATCH DOES NOT APPLY"; fail=1; continue; }
   hit=""
   for c in $checks; do
-    timeout 3000 ./check $c quick > /tmp/seedreg.out 2>&1; rc=$?
-    if [ $rc -eq 1 ] && grep -q '^VIOLATION' /tmp/seedreg.out; then hit="$hit $c"; fi
+    timeout 3000 ./check $c quick > $HERE/.seedreg.out 2>&1; rc=$?
+    if [ $rc -eq 1 ] && grep -q '^VIOLATION' $HERE/.seedreg.out; then hit="$hit $c"; fi
     if [ $rc -eq 2 ]; then hit="$hit $c(harness-error)"; fi
   done
-  git -C /repo checkout -- .
-  git -C /verif clean -fdq replays
+  git -C $REPO checkout -- .
+  git -C $HERE clean -fdq replays
   if [ -z "$hit" ]; then echo "$id: MISSED (ran: $checks)"; fail=1; else echo "$id: detected by$hit"; fi
 done
-rm -f /tmp/seedreg.out
+rm -f $HERE/.seedreg.out
 exit $fail
